@@ -4,6 +4,7 @@ package swap
 
 import (
 	"errors"
+	"time"
 
 	"github.com/elementsproject/peerswap/messages"
 	"github.com/elementsproject/peerswap/zzverif"
@@ -52,6 +53,10 @@ func (sc *vScenario) vC19Rpc() func() {
 		}
 		if sm, err := sc.svc.GetSwap(sc.id); err == nil {
 			_ = sm.Data.GetCancelMessage()
+		}
+		// swapout / swapin RPCs wait for the swap to reach a state (here: any state, so the call returns)
+		if sm, err := sc.svc.GetActiveSwap(sc.id); err == nil {
+			sm.WaitForStateChange(func(StateType) bool { return true }, time.Second)
 		}
 	}
 }
